@@ -303,7 +303,8 @@ SendsRight == [][mode = "ctx" =>
   ]_vars
 \* an accepted reply answers the request for good: answered and lost are final,
 \* so (with SendsRight) no request sees a second message after an accepted one
-Final == [][\A r \in DOMAIN reqs : reqs[r].at < 0 => (r \in DOMAIN reqs' /\ reqs'[r] = reqs[r])]_vars
+Final == [][obs'.a # "init" =>   \* ("init" = start of the next recorded execution)
+              \A r \in DOMAIN reqs : reqs[r].at < 0 => (r \in DOMAIN reqs' /\ reqs'[r] = reqs[r])]_vars
 Accepted == [][\A r \in obs'.g : obs'.arg.tv = "ok" => reqs'[r].at = -1]_vars
 \* with nothing outstanding in the context a reply attempt is refused and sends nothing
 RefusedAfter == [][(obs'.a \in {"reply", "replytext"} /\ HeldAt(0) = {})
